@@ -30,7 +30,7 @@ def run(ctx):
         ops.append("dumprt\t%d\t0\t0\t*" % kind)
         ops.append("dumprt\t2,%d,0\t%d\t0\t*" % (kind, kind))
     for _ in range(ctx.n(20000, 400000)):
-        n = r.randrange(0, 9)
+        n = r.randrange(0, 9) if r.random() < 0.9 else r.choice([23, 24, 25, 26, 30, 39, 40, 41, 60])
         layout = [r.choice([0, 1, 2, 3, 4, 5, 8, r.randrange(256)]) for _ in range(n)]
         ver = r.choice(["4", "6", "*"])
         q = r.getrandbits(17)
